@@ -4,7 +4,7 @@
    divisor, sqrt argument and loop start value in its domain.  Float statements (vm_compute on
    primitive binary64): the same masks do NOT do so in binary64 -- machine-checked divergence. *)
 From Coq Require Import ZArith Reals Lra Lia Psatz List Bool.
-From MV Require Import Model.LoopNum Gen.GenLoop Model.LoopModel Model.LoopExec.
+From MV Require Import Model.LoopNum Gen.GenLoop Model.LoopModel Model.LoopExec Model.LoopPins.
 Import ListNotations.
 Local Open Scope R_scope.
 
@@ -765,3 +765,7 @@ Proof.
   - rewrite Hm. destruct cel_small_returns; eauto.
   - eauto.
 Qed.
+
+(* ------------------------------------------------------------------ pinned, unmodelled: special_el3.py *)
+Lemma special_el3_pinned : special_el3_fingerprint = special_el3_expected_fingerprint.
+Proof. reflexivity. Qed.
